@@ -214,11 +214,62 @@ def source_reading(ctx):
         ctx.obligation("Gen_C13_src: equality / hash look at the model's tables (compiled)", ok, log[-400:])
 
 
+def filled_zone_layouts(ctx):
+    """layouts whose zones are FILLED grids (the library's Grid subclass): without vacancies, with vacancies, built in two ways, next to the
+    plain grid - equality of layouts follows equality of the zones, equal layouts hash equally, two names never share a grid"""
+    from bloqade.geometry.dialects.grid import Grid
+    from bloqade.shuttle.arch import ArchSpec, Layout
+    from bloqade.shuttle.dialects.filled.types import FilledGrid
+    P = Grid.from_positions([0.0, 2.0, 4.5], [0.0, 3.0])
+    zones = {"plain": P, "filled, no vacancy (vacate [])": FilledGrid.vacate(P, []),
+             "filled, no vacancy (fill all)": FilledGrid.fill(P, [(i, j) for i in range(3) for j in range(2)]),
+             "filled, one vacancy": FilledGrid.vacate(P, [(0, 0)]), "filled, one vacancy (built by fill)": FilledGrid.fill(P, [(i, j) for i in range(3) for j in range(2) if (i, j) != (0, 0)]),
+             "filled, other vacancy": FilledGrid.vacate(P, [(1, 1)]), "view of the plain grid": P[0:3, 0:2]}
+    n = 0
+    for (na, A), (nb, B) in itertools.product(zones.items(), repeat=2):
+        ctx.evaluations += 1
+        n += 1
+        rep = {"filled_zone_layouts": [na, nb]}
+        same = bool(A == B)
+        view = "view" in na or "view" in nb
+        if same != bool(B == A):
+            ctx.fail({"kind": "eq-not-symmetric", "zones": "filled", "with_view": view}, rep, f"zone equality between {na} and {nb} is not symmetric")
+        if same and hash(A) != hash(B):
+            ctx.fail({"kind": "eq-but-hash-differs", "zones": "filled", "with_view": view, "level": "zone"}, rep, f"zones {na} and {nb} compare equal but hash differently")
+        try:
+            La, Lb = Layout({"a": A}, {"a"}, set(), set()), Layout({"a": B}, {"a"}, set(), set())
+        except Exception as e:
+            ctx.fail({"kind": "constructor-raises", "zones": "filled", "with_view": view}, rep, f"Layout with a {na} zone raises {type(e).__name__}")
+            continue
+        if bool(La == Lb) != same:
+            ctx.fail({"kind": "eq-vs-fields", "zones": "filled", "with_view": view}, rep, f"layouts whose only zone is {na} / {nb}: zones compare {'equal' if same else 'unequal'} but the layouts compare {'equal' if La == Lb else 'unequal'}")
+        if La == Lb and hash(La) != hash(Lb):
+            ctx.fail({"kind": "eq-but-hash-differs", "zones": "filled", "with_view": view}, rep, f"equal layouts (zone {na} / {nb}) hash differently")
+        sa, sb = ArchSpec(layout=La), ArchSpec(layout=Lb)
+        if sa == sb and hash(sa) != hash(sb):
+            ctx.fail({"kind": "archspec-eq-hash", "zones": "filled", "with_view": view}, rep, f"equal ArchSpecs (zone {na} / {nb}) hash differently")
+        if La == Lb and La.get_zone_id(B) != "a":
+            ctx.fail({"kind": "zone-index", "zones": "filled", "with_view": view, "lookup": La.get_zone_id(B)}, rep, f"get_zone_id of a grid equal to the registered zone ({na} / {nb}) is {La.get_zone_id(B)!r}")
+        # the two zones under two names: accepted exactly when they are different grids
+        try:
+            L2 = Layout({"a": A, "b": B}, set(), set(), set())
+        except Exception:
+            L2 = None
+        if (L2 is None) != same:
+            ctx.fail({"kind": "two-names-one-grid" if L2 is not None else "constructor-rejects-distinct-grids", "zones": "filled", "with_view": view, "names": ["a", "b"]}, rep,
+                     f"Layout({{a: {na}, b: {nb}}}) is {'accepted' if L2 is not None else 'rejected'} although the zones compare {'equal' if same else 'unequal'}")
+        elif L2 is not None:
+            oracle_layout(ctx, L2, None, f"filled-zone layout ({na} / {nb})")
+            ctx.nt(("filled-zone-layout", na, nb))
+    ctx.count("pairs of plain / filled zones as layouts", n)
+
+
 def run(ctx):
     from bloqade.shuttle.arch import ArchSpec
     reflect_fields(ctx)
     source_reading(ctx)
     hash_collision_pairs(ctx)
+    filled_zone_layouts(ctx)
     ctx.rule = ("layouts over a pool of 6 grids (incl. a view equal to its parent and a grid with an empty axis) and names a,b,c,s,t with every "
                 "field varied independently (static/special tables incl. insertion order, three name sets): all pairs for ==/hash/model, all "
                 "comparable triples for transitivity; constructor acceptance, get_zone_id of every pool grid, bounding_box; every layout returned "
@@ -364,14 +415,41 @@ def builders(ctx):
     from bloqade.shuttle.stdlib.layouts.gemini import base_spec, logical
     from bloqade.shuttle.stdlib import spec as old_spec
     R = range(1, ctx.pick(4, 7))
+    held = []          # (label, spec, snapshot taken when it was returned)
+
+    def snap(S):
+        L = S.layout
+        return (hash(L), hash(S), tuple(L.bounding_box()), sorted((k, repr(g)) for k, g in list(L.static_traps.items()) + list(L.special_grid.items())))
+
+    def take(S, label):
+        held.append((label, S, snap(S)))
+        oracle_layout(ctx, S.layout, None, label)
     for nx, ny in itertools.product(R, R):
         for sp in (0.5, 2.0, 10.0):
-            oracle_layout(ctx, single_col_zone.get_spec(nx, ny, sp).layout, None, f"single_col_zone.get_spec({nx},{ny},{sp})")
-            oracle_layout(ctx, old_spec.single_zone_spec(nx, ny, sp).layout, None, f"stdlib.spec.single_zone_spec({nx},{ny},{sp})")
+            take(single_col_zone.get_spec(nx, ny, sp), f"single_col_zone.get_spec({nx},{ny},{sp})")
+            take(old_spec.single_zone_spec(nx, ny, sp), f"stdlib.spec.single_zone_spec({nx},{ny},{sp})")
             for gs in (1.0, 2.5):
-                oracle_layout(ctx, two_col_zone.get_spec(nx, ny, sp, gs).layout, None, f"two_col_zone.get_spec({nx},{ny},{sp},{gs})")
+                take(two_col_zone.get_spec(nx, ny, sp, gs), f"two_col_zone.get_spec({nx},{ny},{sp},{gs})")
                 ctx.evaluations += 3
                 ctx.nt(("builder", nx, ny, sp, gs))
+    # every returned spec is still what it was after all the later calls of the builders (a spec is a value: later calls must not reach it),
+    # and specs built from different requests stay different
+    for label, S, before in held:
+        ctx.evaluations += 1
+        if snap(S) != before:
+            ctx.fail({"kind": "zone-index", "layout": label.split("(")[0], "history": "builder called again with other arguments", "lookup": "changed"}, {"layout": label, "history": "all builder calls of this check"},
+                     f"{label}: the returned spec changed after later calls of the builders (hash / bounding box / zone tables differ from when it was returned)")
+        else:
+            oracle_layout(ctx, S.layout, None, label + " [re-examined after all later builder calls]")
+    by_builder = {}
+    for label, S, before in held:
+        by_builder.setdefault(label.split("(")[0], []).append((label, S, before))
+    for b, lst in by_builder.items():
+        for (l1, s1, t1), (l2, s2, t2) in itertools.combinations(lst[:40], 2):
+            ctx.evaluations += 1
+            # (different requests may describe the same geometry - a 1 x 1 zone has no spacing; only specs whose zone tables differ count)
+            if t1[3] != t2[3] and (s1 == s2 or s1.layout == s2.layout):
+                ctx.fail({"kind": "eq-vs-fields", "layout": b, "case": "different requests"}, {"a": l1, "b": l2}, f"{l1} and {l2} compare equal")
     oracle_layout(ctx, base_spec.get_base_spec().layout, None, "gemini.base_spec.get_base_spec()")
     oracle_layout(ctx, logical.get_spec().layout, None, "gemini.logical.get_spec()")
     # a builder's result must not depend on which builders ran before it in this process
@@ -390,6 +468,12 @@ def replay(data):
         def nt(s, *a): pass
         def pick(s, a, b): return b
     c = C()
+    c.count = lambda *a: None
+    if "filled_zone_layouts" in inp:
+        filled_zone_layouts(c)
+        a, b = inp["filled_zone_layouts"]
+        hit = [f for f in c.fails if a in f and b in f]
+        return bool(hit), "; ".join(hit[:2])[:300] or "coherent"
     if "layout" in inp:
         builders(c)
         hit = [f for f in c.fails if f.startswith(inp["layout"].split("(")[0])]
